@@ -128,3 +128,15 @@ Fixpoint ugen (shadow : bool) (n : nat) (draws : list (option id)) : list id :=
       end
   end.
 Definition somes (draws : list (option id)) : list id := flat_map (fun o => match o with Some d => [d] | None => [] end) draws.
+
+(* ---- the node-id lease (node_id_allocator.go): the slot marker lives `ttl` seconds; while the holder is alive a heartbeat
+   re-writes it every `p` seconds.  State = (now, time of the last write of the marker); one step = one second.
+   `beat = false` is a holder whose heartbeat does not run (the shape of seeded change C15-14). ---- *)
+Fixpoint lease (beat : bool) (p : nat) (n : nat) : nat * nat :=
+  match n with
+  | O => (O, O)
+  | S k => let '(now, last) := lease beat p k in
+           let now' := S now in
+           if beat && Nat.eqb (now' - last) p then (now', now') else (now', last)
+  end.
+Definition marker_live (ttl : nat) (s : nat * nat) : bool := Nat.ltb (fst s) (snd s + ttl).
